@@ -157,7 +157,7 @@ def run_verus(path, extra=()):
     t0 = time.time()
     try:
         p = subprocess.run([VERUS, path, "--output-json", "--time", "--rlimit", RLIMIT, "--multiple-errors", "20"] + list(extra),
-                           capture_output=True, text=True, timeout=600)
+                           capture_output=True, text=True, timeout=600, cwd=os.path.dirname(os.path.abspath(path)) or None)
     except subprocess.TimeoutExpired:
         return None, "verus timeout (600 s)", time.time() - t0
     try:
